@@ -82,8 +82,18 @@ def link_order(built):
 
 def one(M, rec, rng, g, desc, kind, symvals):
     pars = g.pars()
-    _, vals = g.values(desc, allow_inf=False)
     ins, outs, org, dst = R.topology(desc)
+    bif = [n_ for n_ in desc["nodes"] if len(outs[n_]) >= 2]
+    if bif and rng.random() < 0.25:
+        # turn rates copied from a table with five decimals: they add up to almost, not exactly, one
+        desc = copy.deepcopy(desc)
+        ins, outs, org, dst = R.topology(desc)
+        for n_ in bif:
+            ws = [rng.uniform(0.2, 1.0) for _l in outs[n_]]
+            for l_, w_ in zip(outs[n_], ws):
+                l_["beta"] = math.floor(w_ / sum(ws) * 1e5) / 1e5
+        rec.count("cases_with_turn_rates_summing_to_almost_one")
+    _, vals = g.values(desc, allow_inf=False)
     merges = [n for n in desc["nodes"] if len(ins[n]) >= 2]
     if merges and rng.random() < 0.2:
         # nothing flows into a merge: the model's merge speed is 0/0 there; whatever the library returns
@@ -337,6 +347,49 @@ def moved_link(M, rec, rng, g):
         rec.violation(f"{PROP}:moved link:numpy: the re-wired network cannot be stepped ({type(e).__name__})", {"exception": repr(e)[:300]})
 
 
+def state_dependent_turn_rates(M, rec, rng, g):
+    """A user link kind whose turn rate is a property of its current state (route choice reacting to traffic):
+    the share of the node's inflow a leaving link receives is its CURRENT turn rate over the sum of the current
+    ones, through Network.step as through the element-level calls."""
+    from vf import userkinds as UK
+
+    NE, CE = drive.engines(M)
+    mk = lambda cls, N, lam, beta, nm: cls(N, lam, 1.0, 180.0, 33.5, 102.0, 1.867, beta, nm)  # noqa: E731
+    n = [M.Node(name=f"N{i}") for i in range(4)]
+    up = mk(M.Link, 2, 3, 1.0, "up")
+    k_ = rng.choice((2, 3))
+    outs = [mk(UK.AdaptiveLink, rng.choice((1, 2)), rng.choice((1, 2)), round(rng.uniform(0.2, 2.0), 2), f"b{i}") for i in range(k_)]
+    net = M.Network().add_path((n[0], up, n[1]), origin=M.MainstreamOrigin(name="O"))
+    for i, l in enumerate(outs):
+        net.add_path((n[1], l, M.Node(name=f"X{i}")), destination=M.Destination(name=f"D{i}"))
+    T = 10 / 3600
+    kw = dict(T=T, tau=18 / 3600, eta=60.0, kappa=40.0)
+    ic = {up: {"rho": np.array([rng.uniform(15, 40), rng.uniform(15, 40)]), "v": np.array([rng.uniform(60, 100), rng.uniform(60, 100)])}}
+    for l in outs:
+        ic[l] = {"rho": np.array([rng.uniform(5, 60) for _ in range(l.N)]), "v": np.array([rng.uniform(40, 100) for _ in range(l.N)])}
+    org = next(iter(net.origins))
+    ic[org] = {"w": np.array([5.0]), "d": np.array([3000.0]), "v_ctrl": np.array([200.0])}
+    via = rng.choice(drive.VIAS)
+    for _step in range(2):  # the second step starts from other densities: the rates have moved
+        try:
+            drive.do_step(net, via, rng=rng, init_conditions=ic, engine=NE(), **kw)
+        except Exception as e:
+            rec.violation(f"{PROP}:state-dependent turn rates: stepping raised {type(e).__name__}", {"exception": repr(e)[:300]})
+            return
+        Q = float(ic[up]["rho"][-1] * ic[up]["v"][-1] * up.lam)
+        betas = [float(l._base_rate * (1.0 + 0.02 * ic[l]["rho"][0])) for l in outs]
+        rec.count("state_dependent_turn_rate_checks")
+        for l, b in zip(outs, betas):
+            q_in = float((np.asarray(l.next_states["rho"])[0] - ic[l]["rho"][0]) * l.lam * l.L / T + ic[l]["rho"][0] * ic[l]["v"][0] * l.lam)
+            exp = b / sum(betas) * Q
+            if not abs(q_in - exp) <= 1e-7 * (1 + abs(exp) + abs(Q)):
+                rec.violation(f"{PROP}:share:numpy: with state-dependent turn rates a leaving link does not receive its current turn rate / sum of the current ones",
+                              {"stepped_via": via, "link": l.name, "inflow": q_in, "expected": exp, "current_turn_rates": betas})
+                return
+        for l in outs + [up]:
+            ic[l] = {"rho": np.asarray(l.next_states["rho"], dtype=float) * rng.uniform(0.6, 1.4), "v": np.maximum(np.asarray(l.next_states["v"], dtype=float), 5.0)}
+
+
 def run(M, rec, tier, seed, k, n):
     np.seterr(all="ignore")
     rng = random.Random(seed * 1000 + k + 1400)
@@ -352,6 +405,8 @@ def run(M, rec, tier, seed, k, n):
         one(M, rec, rng, g, desc, kind, symvals)
         if it % 4 == 1:
             moved_link(M, rec, rng, g)
+        if it % 4 == 3:
+            state_dependent_turn_rates(M, rec, rng, g)
 
 
 def finish(M, rec, write=True):
